@@ -150,3 +150,129 @@ Example C12_refresh_is_not_identity :
 Proof. split; vm_compute; reflexivity. Qed.
 Example C12_stale_projection_refused : fresh_checker stale_example = false.
 Proof. exact stale_example_refused. Qed.
+
+(** * Observer options: verbosity (strengthening driven by seeds F3-I and F6-J; Model/Observers.v,
+      Proofs/SetupObsP.v, Proofs/ObserversP.v, per-run obligations in Proofs/SetupObsMainP.v)
+
+    translate/mainloop2coq.py follows `opts.getVerbosity()` through main(): every `if` whose condition reads
+    it is an observer-guarded statement; its statements are classified (const member function of an outside
+    object / call of the model / `getPastModulation()` / non-const member function / assignment to an outside
+    variable that is not report-only / anything else); a read of the verbosity anywhere else fails the
+    translation.  Set-up: the guarded statements stay in the skeleton, [setup_observer_conds] are the
+    conditions, [setup_pure_opaque] the statements and conditions found free of effects.
+    (1) The generated skeleton passes [obs_chk] (under a verbosity test: pure statements and pure conditions only -
+    no call of the driver model, no hook point, no return, no `Display::abort = true`), hence: for every kernel
+    record, signal schedule, configuration, state and every two environments of opaque statements that differ in
+    the VALUES OF THE VERBOSITY TESTS only - pure statements leave the model's state alone and do not throw -
+    the set-up ends the same way in the same state, and so does the whole program: the start state of the
+    simulation does not depend on the verbosity. *)
+From Inovesa Require Import Model.Observers Proofs.SetupObsP Proofs.ObserversP Proofs.SetupObsMainP.
+
+Theorem C12_setup_observers_pure :
+  obs_chk setup_observer_conds setup_pure_opaque main_setup = true /\
+  forall (K : kern) (sig : Z -> bool) (cf : cfg) (ev1 ev2 : senv K),
+    pure_env setup_pure_opaque ev1 -> pure_env setup_pure_opaque ev2 ->
+    same_but_observers setup_observer_conds ev1 ev2 ->
+    forall s : st K,
+      sexec sig ev1 cf main_setup s = sexec sig ev2 cf main_setup s /\
+      full_run sig ev1 cf main_setup main_prog s = full_run sig ev2 cf main_setup main_prog s.
+Proof. exact (conj main_setup_observers_checked (fun K => main_setup_observers_pure K)). Qed.
+Print Assumptions C12_setup_observers_pure.
+
+(** (2) The observer-guarded statements of the simulation part (they are not part of [main_prog]: the driver
+    model has no verbosity) pass [observers_pure]: each of them, executed in any state of the model, whatever
+    the unclassified effects [unk] would do, leaves the state as it is.  `getPastModulation()` counts here as a function
+    that clears the pending records ([clearing_getpast]: none of the statements may call it; C19 states the same with the
+    effect translate/dynqueue2coq.py reads off its body). *)
+Theorem C12_loop_observers_pure :
+  observers_pure clearing_getpast loop_observers = true /\
+  forall (K : kern) (sig : Z -> bool) (cf : cfg) (junk : list (tMd K)) (unk : String.string -> st K -> st K) (o : ostmt) (s : st K),
+    In o loop_observers -> oexec_stmt sig cf junk clearing_getpast unk o s = s.
+Proof. exact (conj main_loop_observers_checked_c (fun K => main_loop_observers_pure_c K)). Qed.
+Print Assumptions C12_loop_observers_pure.
+
+(** non-vacuity: main() does test the verbosity in its set-up; the hypotheses are satisfiable by two
+    environments that answer those tests differently; a verbosity test whose branch refreshes the cached
+    profile and integrates (seed F3-I in miniature) is refused *)
+Example C12_setup_has_observers : (1 <=? Z.of_nat (obs_count setup_observer_conds main_setup)) = true.
+Proof. exact main_setup_has_observers. Qed.
+Example C12_observer_hypotheses_satisfiable :
+  pure_env setup_pure_opaque (idle_env unitK true) /\ pure_env setup_pure_opaque (idle_env unitK false) /\
+  same_but_observers setup_observer_conds (idle_env unitK true) (idle_env unitK false) /\
+  cnd (idle_env unitK true) (hd 0 setup_observer_conds) <> cnd (idle_env unitK false) (hd 0 setup_observer_conds).
+Proof. split; [apply idle_env_pure | split; [apply idle_env_pure | split; [apply idle_envs_differ_in_observers | vm_compute; discriminate]]]. Qed.
+Example C12_impure_observer_refused : obs_chk [1] [1; 3] impure_observer_example = false.
+Proof. exact impure_observer_example_refused. Qed.
+
+(** * FFT wisdom (strengthening driven by seed F1-I; Model/Wisdom.v, Proofs/WisdomP.v, per-run obligations in
+      Proofs/WisdomMainP.v; generated: Gen/Gen_Wisdom.v from src/FFTWWrapper.cpp and src/IO/FSPath.cpp)
+
+    "Two runs with identical parameters and the same FFT wisdom produce bit-identical physics datasets": every planner
+    call of fft::prepareFFT measures run times ([wisdom_planner_timed]), so which plan a run gets WITHOUT stored wisdom
+    is outside any model - the program's answer is the wisdom files.  The logic around them is a state machine
+    `run : directory -> directory` over the generated table of prepareFFT bodies.  Per-run obligation [wis_ok]: the path
+    is built by FSPath::append (which creates the directory: read off FSPath.cpp), the wisdom is imported before the
+    wisdom-only plan, and the create branch plans first and exports afterwards.  Then, for every state of the wisdom
+    directory the first run finds (missing, empty, unreadable files, files without the wisdom of their own transform)
+    and every sequence of transforms the program prepares: the second run plans nothing, writes nothing, and every
+    prepared transform has a readable wisdom file.  Outside the model: FFTW's planner itself (that a plan re-created
+    from wisdom is the stored plan) - the repeated runs of the check. *)
+From Coq Require Import String.
+From Inovesa Require Model.Wisdom Gen.Gen_Wisdom Proofs.WisdomP Proofs.WisdomMainP.
+
+Theorem C12_wisdom_after_one_run_nothing_is_planned :
+  WisdomP.wis_ok WisdomMainP.main_mkdir Gen_Wisdom.wisdom_table = true /\
+  forall (fs0 : Wisdom.fsys) (reqs : list Wisdom.key),
+    (forall k, In k reqs -> WisdomP.handled Gen_Wisdom.wisdom_table k = true) ->
+    let fs1 := Wisdom.p_fs (Wisdom.run WisdomMainP.main_mkdir Gen_Wisdom.wisdom_table reqs fs0) in
+    Wisdom.p_planned (Wisdom.run WisdomMainP.main_mkdir Gen_Wisdom.wisdom_table reqs fs1) = [] /\
+    Wisdom.p_written (Wisdom.run WisdomMainP.main_mkdir Gen_Wisdom.wisdom_table reqs fs1) = [] /\
+    Wisdom.p_fs (Wisdom.run WisdomMainP.main_mkdir Gen_Wisdom.wisdom_table reqs fs1) = fs1 /\
+    (forall k, In k reqs -> exists w, Wisdom.lookup k (Wisdom.fs_files fs1) = Some (Some w)).
+Proof. exact (conj WisdomMainP.main_wisdom_checked WisdomMainP.main_wisdom_after_one_run). Qed.
+Print Assumptions C12_wisdom_after_one_run_nothing_is_planned.
+
+(** non-vacuity: the table handles the transforms of the field objects; from a missing directory the first run does plan
+    and write; and three slips - a plain string as path (seed F1-I), export before the plan, an append that creates
+    nothing - are refused by the checker AND have a second run that plans again *)
+Example C12_wisdom_first_run_plans :
+  let r := Wisdom.run WisdomMainP.main_mkdir Gen_Wisdom.wisdom_table [("r2c32"%string, 128); ("c2r32"%string, 128)] (Wisdom.mkfs false []) in
+  Wisdom.p_planned r = [("r2c32"%string, 128); ("c2r32"%string, 128)] /\ Wisdom.p_written r = Wisdom.p_planned r /\
+  Wisdom.p_logged r = Wisdom.p_planned r /\ Wisdom.fs_dir (Wisdom.p_fs r) = true.
+Proof. exact WisdomMainP.main_first_run_plans. Qed.
+Example C12_wisdom_handles_the_fields : forall n,
+  WisdomP.handled Gen_Wisdom.wisdom_table ("r2c32"%string, n) = true /\ WisdomP.handled Gen_Wisdom.wisdom_table ("c2r32"%string, n) = true.
+Proof. exact WisdomMainP.main_handles_the_fields. Qed.
+Example C12_wisdom_slips_refused :
+  WisdomP.second_run_planned true (WisdomP.tb_of Wisdom.PPlainString [Wisdom.WImportThen [Wisdom.WPlan true]; Wisdom.WIfNoPlan [Wisdom.WPlan false; Wisdom.WExport; Wisdom.WLog]]) = [WisdomP.k0] /\
+  WisdomP.second_run_planned true (WisdomP.tb_of Wisdom.PFSPathAppend [Wisdom.WImportThen [Wisdom.WPlan true]; Wisdom.WIfNoPlan [Wisdom.WExport; Wisdom.WPlan false; Wisdom.WLog]]) = [WisdomP.k0] /\
+  WisdomP.second_run_planned false (WisdomP.tb_of Wisdom.PFSPathAppend WisdomP.canon) = [WisdomP.k0] /\
+  WisdomP.wis_ok false (WisdomP.tb_of Wisdom.PFSPathAppend WisdomP.canon) = false.
+Proof.
+  exact (conj (proj2 WisdomP.plain_string_path_replans) (conj (proj2 WisdomP.export_before_plan_replans)
+        (conj (proj2 WisdomP.append_without_mkdir_replans) (proj1 WisdomP.append_without_mkdir_replans)))).
+Qed.
+
+(** * The initial phase-space record (open finding `initial-ps-record`; Proofs/DriverPS0P.v)
+
+    [C12_common_records_equal] leaves the phase-space rows out; this is why the statement cannot include them for the
+    program as it is: a model witness (integer instance; grid charge 6, cached integral 1 as after loading a file,
+    `renormalize = 1`) in which the t = 0 phase-space record of the `SavePhaseSpace = 0` run (written in the prologue) is
+    6 and that of the `SavePhaseSpace = 1` run (written in the first iteration, after the renormalisation) is 1, while
+    the two runs end in the same grid.  The same input fails on the binary (findings/C12-initial-ps-record.replay.json). *)
+From Inovesa Require Proofs.DriverPS0P.
+Theorem C12_initial_phase_space_record_refuted :
+  exists (K : kern) (c1 c2 : cfg) (s : st K) (rows : Z -> list (rec K) -> list (tG K)),
+    shared c1 c2 /\ rows 0 (file (run nosig c1 main_prog s)) <> rows 0 (file (run nosig c2 main_prog s)) /\
+    rows 0 (file (run nosig c1 main_prog s)) <> [] /\ rows 0 (file (run nosig c2 main_prog s)) <> [].
+Proof. exact DriverPS0P.initial_ps_record_refuted. Qed.
+Print Assumptions C12_initial_phase_space_record_refuted.
+(** ... the witness itself: same configuration but for SavePhaseSpace (0 / 1), same start state; the t = 0 phase-space
+    rows of the two files are [6] and [1]; the final grids agree *)
+Theorem C12_initial_phase_space_record_witness :
+  shared (DriverPS0P.ps0_cfg 0) (DriverPS0P.ps0_cfg 1) /\
+  DriverPS0P.ps_rows_at 0 (file (run nosig (DriverPS0P.ps0_cfg 0) main_prog DriverPS0P.ps0_start)) = [6] /\
+  DriverPS0P.ps_rows_at 0 (file (run nosig (DriverPS0P.ps0_cfg 1) main_prog DriverPS0P.ps0_start)) = [1] /\
+  g1 (run nosig (DriverPS0P.ps0_cfg 0) main_prog DriverPS0P.ps0_start) = g1 (run nosig (DriverPS0P.ps0_cfg 1) main_prog DriverPS0P.ps0_start).
+Proof. exact DriverPS0P.initial_ps_record_differs. Qed.
+Print Assumptions C12_initial_phase_space_record_witness.
